@@ -742,10 +742,20 @@ func mentionsInternal(e Expr, fc *FuncContract) bool {
 
 // callHooks runs, for a call made directly by the function under verification, its call-site
 // assertions and its oncall ghost updates (arguments are arg0, arg1, ...; receiver first).
+// hookName: the name hooks are keyed by (generic instances without their type arguments).
+func hookName(n string) string {
+	if i := strings.IndexByte(n, '['); i > 0 {
+		return n[:i]
+	}
+	return n
+}
+
 func (fr *Frame) callHooks(st *State, name string, args []Val, pos token.Pos) {
 	if fr.parent != nil || fr.fc == nil {
 		return
 	}
+	name = hookName(name)
+	fr.top.hookSeen[name] = true
 	if cls := fr.fc.CallSites[name]; len(cls) > 0 {
 		sc := fr.loopScope(st, st.alloc)
 		for i, a := range args {
@@ -771,6 +781,8 @@ func (fr *Frame) ghostCallUpdates(st *State, name string, args []Val, res []Val,
 	if fr.parent != nil || fr.fc == nil {
 		return
 	}
+	name = hookName(name)
+	fr.top.hookSeen[name] = true
 	for _, gu := range fr.fc.GhostUps {
 		if gu.OnCall != name || gu.After != after {
 			continue
@@ -781,6 +793,11 @@ func (fr *Frame) ghostCallUpdates(st *State, name string, args []Val, res []Val,
 		}
 		for i, a := range res {
 			sc.vars[fmt.Sprintf("ret%d", i)] = a
+		}
+		if gu.Assume {
+			fr.assume(st, fr.evalBool(sc, gu.E))
+			fr.top.trusted["assumed about results of "+gu.OnCall+" in "+shortKey(fr.fc.Key)+": "+strings.TrimSpace(gu.Text[strings.Index(gu.Text, ":")+1:])] = true
+			continue
 		}
 		v := fr.evalExpr(sc, gu.E)
 		if old, ok := st.ghost[gu.Name]; ok {
